@@ -13,3 +13,11 @@ open AC.Props.C02
 #print axioms AC.ChainTie.ops_tie
 #print axioms AC.ChainTie.isAscending_tie
 #print axioms AC.ChainTie.end_tie
+#print axioms C02_src_validate
+#print axioms C02_src_produces
+#print axioms C02_src_program
+#print axioms AC.ChainTie.program_tie
+#print axioms AC.ChainTie.validate_tie
+#print axioms AC.ChainTie.produces_tie
+#print axioms C02_src_superset
+#print axioms AC.ChainTie.superset_tie
